@@ -24,6 +24,11 @@ OrderOf(f) == CASE f = "H1" -> <<"m", "a", "s", "p">> [] f = "H2" -> <<"m", "p",
 HasPrio(f) == f \in {"H2", "H3"}
 HdrPrio(f, sid) == IF f = "H2" THEN <<sid, 1, 0, 255>> ELSE <<sid, 0, 0, 0>>
 
+\* a request whose HEADERS frame (block of H1) leaves the stream open and whose body ends with a trailer block: a second HEADERS
+\* frame on the same stream, without pseudo-header fields; T1's carries the PRIORITY flag (not exclusive, dep 5, weight byte 9)
+TrailerKinds == {"T0", "T1"}
+TrPrio(sid) == <<sid, 0, 5, 9>>
+
 
 \* ---------------------------------------------------------------- Marshal, as the code prints it
 SettingStr(s) == ToString(s[1]) \o ":" \o ToString(s[2])
